@@ -1,14 +1,15 @@
 #!/bin/bash
-# ./selftest.sh <patch.diff> <Cxx> [quick|thorough]  — apply a seeded change to /repo, run the check, undo the change.
-# Expected: exit 1 and a VIOLATION line.  Never leaves /repo modified.
+# ./selftest.sh <patch.diff> <Cxx> [quick|thorough]  — run a check against a scratch copy of /repo's working tree with a
+# seeded change applied.  Expected: exit 1 and a VIOLATION line.  /repo itself and /verif/evidence are not touched
+# (equivalent to git -C /repo apply; run; git -C /repo checkout -- . , but safe to run next to other checks).
 set -u
 PATCH="$(readlink -f "$1")"; ID="$2"; TIER="${3:-quick}"
 VERIF="$(cd "$(dirname "$0")" && pwd)"
-if ! git -C /repo diff --quiet; then echo "selftest: /repo has uncommitted changes" >&2; exit 2; fi
-git -C /repo apply "$PATCH" || { echo "selftest: patch does not apply" >&2; exit 2; }
-trap 'git -C /repo apply -R "$PATCH" 2>/dev/null || git -C /repo checkout -- .' EXIT
-cp -r "$VERIF/evidence" "$VERIF/.evidence.bak" 2>/dev/null
-"$VERIF/run.sh" "$ID" "$TIER"; rc=$?
-rm -rf "$VERIF/evidence"; mv "$VERIF/.evidence.bak" "$VERIF/evidence" 2>/dev/null
+BASE=/dev/shm; [ -d "$BASE" ] && [ -w "$BASE" ] || BASE="${TMPDIR:-/var/tmp}"
+SC="$(mktemp -d "$BASE/selftest.XXXXXX")"
+trap 'rm -rf "$SC"' EXIT
+rsync -a --exclude .git /repo/ "$SC/src"/ || exit 2
+(cd "$SC/src" && git apply "$PATCH") || { echo "selftest: patch does not apply" >&2; exit 2; }
+VERIF_REPO="$SC/src" VERIF_EVIDENCE_DIR="$SC/evidence" "$VERIF/run.sh" "$ID" "$TIER"; rc=$?
 echo "selftest: $ID on $(basename "$(dirname "$PATCH")")/$(basename "$PATCH") -> exit $rc"
 exit $rc
